@@ -264,6 +264,77 @@ func (t *tr) opcode(name string, e ast.Expr) string {
 		if oc, ok := funcOps[x.Name]; ok {
 			return oc
 		}
+	case *ast.CallExpr: // ctor(args): a constructor whose body builds T{field: param, ...} and returns its execute method
+		id, ok := x.Fun.(*ast.Ident)
+		if !ok {
+			break
+		}
+		var fd *ast.FuncDecl
+		for _, f := range t.files {
+			for _, d := range f.Decls {
+				if g, ok := d.(*ast.FuncDecl); ok && g.Name.Name == id.Name && g.Recv == nil {
+					fd = g
+				}
+			}
+		}
+		if fd == nil || fd.Body == nil || fd.Type.Params == nil {
+			break
+		}
+		var params []string
+		for _, fl := range fd.Type.Params.List {
+			for _, n := range fl.Names {
+				params = append(params, n.Name)
+			}
+		}
+		if len(params) != len(x.Args) {
+			break
+		}
+		arg := map[string]ast.Expr{}
+		for i, p := range params {
+			arg[p] = x.Args[i]
+		}
+		var lit *ast.CompositeLit
+		returnsExecute := false
+		ast.Inspect(fd.Body, func(n ast.Node) bool {
+			switch y := n.(type) {
+			case *ast.CompositeLit:
+				if tn, ok := y.Type.(*ast.Ident); ok && lit == nil {
+					switch tn.Name {
+					case "arithmetic", "logic", "comparison", "timeConvert", "versionConvert":
+						lit = y
+					}
+				}
+			case *ast.ReturnStmt:
+				if len(y.Results) == 1 {
+					if se, ok := y.Results[0].(*ast.SelectorExpr); ok && se.Sel.Name == "execute" {
+						returnsExecute = true
+					}
+				}
+			}
+			return true
+		})
+		if lit == nil || !returnsExecute {
+			break
+		}
+		sub := &ast.CompositeLit{Type: lit.Type}
+		for _, el := range lit.Elts {
+			kv, ok := el.(*ast.KeyValueExpr)
+			if !ok {
+				sub = nil
+				break
+			}
+			val := kv.Value
+			if vid, ok := val.(*ast.Ident); ok {
+				if a, ok := arg[vid.Name]; ok {
+					val = a
+				}
+			}
+			sub.Elts = append(sub.Elts, &ast.KeyValueExpr{Key: kv.Key, Value: val})
+		}
+		if sub == nil {
+			break
+		}
+		return t.opcode(name, &ast.SelectorExpr{X: sub, Sel: ast.NewIdent("execute")})
 	case *ast.SelectorExpr: // T{...}.execute
 		cl, ok := x.X.(*ast.CompositeLit)
 		if !ok || x.Sel.Name != "execute" {
@@ -303,11 +374,15 @@ func (t *tr) opcode(name string, e ast.Expr) string {
 			if m, ok := timeModes[modeId]; ok {
 				layout := ""
 				if l, ok := fields["layout"]; ok {
-					id, ok := l.(*ast.Ident)
-					if !ok {
-						break
+					if lit, isLit := strLit(l); isLit {
+						layout = lit
+					} else {
+						id, ok := l.(*ast.Ident)
+						if !ok {
+							break
+						}
+						layout = t.constString(id.Name)
 					}
-					layout = t.constString(id.Name)
 				}
 				return "OTime " + m + " " + coqStr(layout)
 			}
